@@ -93,6 +93,11 @@ func runCase(rec vlib.Recorder, sc scenario) caseResult {
 	kinds := ""
 	for _, p := range sc.Kernel.Phases {
 		kinds += p.Kind[:1]
+		if p.Kind == "sload" {
+			for _, ld := range p.sloads() {
+				rec.Distinct("scalar_load_shape", fmt.Sprintf("x%d@%d split=%v", ld.W, ld.Off%64, ld.straddles()))
+			}
+		}
 		if p.Kind == "loadwait" {
 			rec.Distinct("loadwait_n_k", fmt.Sprintf("%d/%d", p.N, p.K))
 		}
